@@ -5,7 +5,7 @@ One parse of one input file is a small-step program over a file-system map. Ever
 file-system, XML or JSON operation of the real code (the operations the harness intercepts):
 
 ```
-start      os.path.isfile(side)
+start      os.path.isfile(side)        (a failing `stat` is swallowed by isfile: the answer is then False)
 preRead    ET.parse(xml)                                  (pre_process_xml_to_json)
 preDecode  build the header lines in memory (json.dumps, parse_nodeid of the aliases)
 preCreate  open(side, "w")
@@ -99,7 +99,8 @@ def readXml (S : Sem) (fs : FS P) (x : P) : Except Err Nat :=
 def step (S : Sem) (f : Bool) (fs : FS P) (p : Proc P) : FS P × Proc P :=
   match p.pc with
   | .start =>
-    if f then (fs, p.to (.done (.err .fault)))
+    -- `os.path.isfile` swallows an I/O error of the underlying `stat` and answers False
+    if f then (fs, p.to .preRead)
     else if (fs p.side).isSome then (fs, p.to .rdOpen) else (fs, p.to .preRead)
   | .preRead =>
     if f then (fs, p.to (.done (.err .fault)))
